@@ -17,7 +17,10 @@ for i in range(1, 21):
             s = re.split(r"(?<=[a-z\)])\. |: ", s, maxsplit=1)[0] if len(s) > 160 else s
             used.append("     - " + s[:170])
     head, rest = src.split("   Already used (one line each):\n", 1)
-    tail = rest[rest.index("   The breakage needs something specific"):]
+    # (the scope sentence, when present, sits between the used list and the "breakage needs" paragraph: keep it)
+    cut = rest.index("   The break must violate the STATEMENT") if "   The break must violate the STATEMENT" in rest \
+        else rest.index("   The breakage needs something specific")
+    tail = rest[cut:]
     out = head + "   Already used (one line each):\n" + "\n".join(used) + "\n" + tail
     old = re.findall(r"call them (\w+), (\w+) and (\w+)", out)[0]
     out = out.replace(f"call them {old[0]}, {old[1]} and {old[2]}", f"call them {l1}, {l2} and {l3}")
